@@ -50,6 +50,43 @@ def judge(R, e, src, opt, family):
     return True
 
 
+def reused_compiler(R, rng, label):
+    """one Compiler object used for several compilations in a row (distinct function names; some sources are refused or
+    rejected midway): every module it emits must be valid on its own"""
+    from .. import nslapi
+    from ..ref import wasm_decode, wasm_validate
+    with nslapi.quiet():
+        c = nslapi._Compiler.Compiler()
+    for k in range(rng.randint(2, 5)):
+        r = rng.random()
+        if r < 0.7:
+            src = print_module(wasmsub.WasmGen(rng, nfuncs=rng.randint(1, 4), prefix="m%d_" % k).gen_module())
+        elif r < 0.85:
+            name, m, fn = rng.choice(wasmsub.outside_subset(rng))
+            src = print_module(m).replace("function f ", "function o%d_f " % k).replace("function h ", "function o%d_h " % k).replace("h (", "o%d_h (" % k)
+        else:
+            src = "export function bad%d (int a) -> int {\n  return a +;\n}\n" % k
+        data = None
+        try:
+            with nslapi.quiet():
+                res = c.Compile(src, {"optimize": bool(k % 2), "wasm": True})
+                if res is not None and res.WasmModule is not None:
+                    data = nslapi.wasm_bytes(res.WasmModule)
+        except (Exception, SystemExit):
+            R.count("reused_compiler_refusals")
+            continue
+        if data is None:
+            continue
+        R.evaluations += 1
+        R.count("modules_emitted_by_a_reused_compiler")
+        ok, stage, rule, detail = wasm_validate.validate_bytes(data)
+        if not ok:
+            R.violation("reused-compiler:%s:%s" % (stage, rule), "%s: module emitted by the %d. compilation of one Compiler object is not valid: %s (%s)"
+                        % (label, k + 1, rule, detail), {"sources": {"main": src}, "compilation_index": k, "bytes_hex": data.hex()[:2000], "mode": "reused"})
+            return
+        R.nontriv(data.hex())
+
+
 def run_shard(tier, seed, shard, n, R):
     for j in range(BUDGET[tier]):
         s = (seed * 1000003 + shard) * 100000 + j
@@ -81,6 +118,8 @@ def run_shard(tier, seed, shard, n, R):
             judge(R, e, src, opt, fam)
         if j == 0:
             R.sample({"family": fam, "source": src[:1000], "bytes_hex": (e.data.hex()[:300] if e.data else None)})
+        if j % 8 == 0:
+            reused_compiler(R, rng, "reuse:%d" % s)
 
 
 def finalize(M, tier):
